@@ -144,7 +144,9 @@ def gen_call_form(rng):
             "flags": rng.choice(["bool", "int", "np"]), "idx": rng.choice(["int", "np64", "np32"]),
             "cb_dtype": rng.choice(["f64", "f32"]),
             # run() / worker() / run() twice / run(), read flat_mesh, run() again
-            "invoke": rng.choice(["run", "call", "twice", "flat-rerun"])}
+            "invoke": rng.choice(["run", "call", "twice", "flat-rerun"]),
+            # every public attribute / property of the worker (flat_mesh, uvs, ...) read BEFORE run()
+            "peek": rng.random() < 0.6}
 
 
 def vary_geometry(rng, case):
@@ -650,7 +652,7 @@ def run(ctx):
         ctx.count("call: custom_boundary " + ("array" if c["mode"] == "custom" else "=None explicitly" if cf.get("cb") == "none" else "omitted"))
         ctx.count("call: boundary_mode %s, use_cotan %s, save_on_corners %s, uv_attr %s"
                   % (cf.get("mode", "kw"), cf.get("cotan", "kw"), cf.get("corners", "kw"), cf.get("uv_attr", "omit")))
-        ctx.count("call: flags as %s, face indices as %s, invoked by %s" % (cf.get("flags", "bool"), cf.get("idx", "int"), cf.get("invoke", "run")))
+        ctx.count("call: flags as %s, face indices as %s, invoked by %s%s" % (cf.get("flags", "bool"), cf.get("idx", "int"), cf.get("invoke", "run"), ", public attributes read before run()" if cf.get("peek") else ""))
         if c.get("geometry"):
             ctx.count("geometry: " + c["geometry"].split(" ")[0])
         if step is not None and cases[ci]["seq"][step].get("move"):
